@@ -310,6 +310,42 @@ pub mod cases {
             S ::= SEQUENCE { a INTEGER (B), n INTEGER (N), z INTEGER (0..max-v) }
             END"],
             checks: &[ItemHas("pubstructS{", "#[rasn(value(\"..=10\"))]puba:Integer"), ItemHas("pubstructS{", "#[rasn(value(\"-5..=5\"))]pubn:i8"), ItemHas("pubstructS{", "#[rasn(value(\"0..=5\"))]pubz:u8")] },
+        // ---- observations of the round-13 agents about the unchanged tree, one row each
+        Case { ob: "C04.cases.own_named_number_of_an_inline_component_type_is_the_bound", srcs: &["M DEFINITIONS AUTOMATIC TAGS ::= BEGIN
+            Alpha ::= INTEGER { top(10) }
+            S ::= SEQUENCE { f INTEGER { top(1000) } (0..top), g INTEGER { limit(3) } (0..limit) }
+            END"],
+            checks: &[ItemHas("pubstructS{", "#[rasn(value(\"0..=1000\"))]pubf:u16"), ItemHas("pubstructS{", "#[rasn(value(\"0..=3\"))]pubg:u8")] },
+        Case { ob: "C04.cases.marker_after_a_parenthesised_size_range_is_kept", srcs: &["M DEFINITIONS AUTOMATIC TAGS ::= BEGIN
+            A ::= OCTET STRING (SIZE ((1..4), ...))
+            B ::= OCTET STRING (SIZE (1..4, ...))
+            END"],
+            checks: &[AttrsHave("pubstructA(", "size(\"1..=4\",extensible)"), AttrsHave("pubstructB(", "size(\"1..=4\",extensible)")] },
+        Case { ob: "C04.cases.additional_elements_after_the_marker_do_not_widen_the_root", srcs: &["M DEFINITIONS AUTOMATIC TAGS ::= BEGIN
+            A ::= INTEGER (1..5, ..., 7 | 9)
+            B ::= INTEGER (1..5, ...)
+            END"],
+            checks: &[AttrsHave("pubstructA(", "value(\"1..=5\",extensible)"), AttrsHave("pubstructB(", "value(\"1..=5\",extensible)")] },
+        Case { ob: "C05.cases.components_of_after_the_marker_are_extension_additions", srcs: &["M DEFINITIONS AUTOMATIC TAGS ::= BEGIN
+            B ::= SEQUENCE { b1 BOOLEAN }
+            A ::= SEQUENCE { a1 INTEGER, ..., COMPONENTS OF B }
+            END"],
+            checks: &[ItemHas("pubstructA{", "#[rasn(extension_addition)]pubb1:bool"), ItemLacks("pubstructA{", "#[rasn(extension_addition)]puba1")] },
+        Case { ob: "C03.cases.tagged_open_type_is_explicit", srcs: &["M DEFINITIONS IMPLICIT TAGS ::= BEGIN
+            O ::= [0] ANY
+            S ::= SEQUENCE { a [1] ANY, b [2] INTEGER }
+            END"],
+            checks: &[AttrsHave("pubstructO(", "tag(explicit(context,0))"), ItemHas("pubstructS{", "#[rasn(tag(explicit(context,1)))]puba:Any"), ItemHas("pubstructS{", "#[rasn(tag(context,2))]pubb:Integer")] },
+        Case { ob: "C03.cases.tag_of_a_parameterized_template_is_applied_to_its_instances", srcs: &["M DEFINITIONS IMPLICIT TAGS ::= BEGIN
+            P {T} ::= [APPLICATION 5] SEQUENCE { a T }
+            X ::= P {INTEGER}
+            END"],
+            checks: &[AttrsHave("pubstructX{", "tag(application,5)")] },
+        Case { ob: "C02.cases.components_of_keeps_its_position_in_the_component_list", srcs: &["M DEFINITIONS AUTOMATIC TAGS ::= BEGIN
+            A ::= SEQUENCE { x INTEGER, y BOOLEAN }
+            B ::= SEQUENCE { COMPONENTS OF A, z NULL }
+            END"],
+            checks: &[ItemHas("pubstructB{", "pubx:Integer,puby:bool,pubz:()")] },
         // ---- C14 / C13: an empty comment `----` ends at its own closing `--`
         Case { ob: "C14.cases.empty_comment_does_not_hide_the_items_after_it", srcs: &["M DEFINITIONS AUTOMATIC TAGS ::= BEGIN
             T ::= ENUMERATED { a, ---- b(5),\n c, ..., d }
